@@ -193,6 +193,51 @@ def main(inp, outp):
                            "scenario": sc})
             notes.append({"id": traces[-1]["id"], "samples": sum(1 for x in items if x["k"] == "S"),
                           "events": [f"{classes[x['l'] - 1]}:{x['lab']}" for x in items if x["k"] == "E"]})
+    # ---- closed-form Keplerian event times: on a two-body orbit the apsides, node crossings and anomaly crossings happen at
+    #      M = 0 / pi, nu = -omega / pi - omega, and at the requested anomaly; t = epoch + (M_target - M_0 + 2 k pi) / n
+    kep_law = {"checked": 0, "failed": 0, "examples": []}
+
+    def mean_of(kind, val, e, w):
+        val = float(val)
+        if kind == "mean":
+            return val
+        if kind == "eccentric":
+            E = val
+        else:
+            nu = val - w if kind == "aol" else val
+            E = 2 * np.arctan2(np.sqrt(1 - e) * np.sin(nu / 2), np.sqrt(1 + e) * np.cos(nu / 2))
+        return E - e * np.sin(E)
+    for tr_ in traces:
+        sc = tr_["scenario"]
+        if sc["propagator"] != "kepler" or not tr_["id"].endswith("#pass1"):
+            continue
+        o0 = source(sc)
+        k0 = o0.copy(form="keplerian", frame="EME2000")
+        a_, e_, w_, nu0 = float(k0[0]), float(k0[1]), float(k0[4]), float(k0[5])
+        n_ = np.sqrt(o0.frame.center.body.mu / a_ ** 3)
+        M0 = mean_of("true", nu0, e_, w_)
+        names = [x.partition("@")[0] for x in sc["listeners"]]
+        for it in tr_["items"]:
+            if it["k"] != "E":
+                continue
+            nm = names[it["l"] - 1]
+            if nm == "apside":
+                Mt = 0.0 if it["lab"] == "Periapsis" else np.pi
+            elif nm == "node":
+                Mt = mean_of("true", (-w_ if it["lab"] == "Asc Node" else np.pi - w_), e_, w_)
+            elif nm.startswith("anomaly"):
+                _, kind, val = nm.split(":")
+                Mt = mean_of(kind, val, e_, w_)
+            else:
+                continue
+            t_ev = sc.get("offset", 0) + it["s"] + it["us"] * 1e-6
+            phase = ((Mt - M0 - n_ * t_ev + np.pi) % (2 * np.pi)) - np.pi         # how far (in mean anomaly) the event is from where it must be
+            dt = abs(phase) / n_
+            kep_law["checked"] += 1
+            if dt > 1e-3:
+                kep_law["failed"] += 1
+                if len(kep_law["examples"]) < 4:
+                    kep_law["examples"].append({"scenario": sc["name"], "listener": nm, "label": it["lab"], "t_s": t_ev, "off_by_s": float(dt)})
     # ---- laws of the light listener: (a) illumination is a geometric fact - the frame it is asked to compute in does not matter;
     #      (b) away from the shadow boundaries it agrees with an independent conical-shadow computation
     from beyond.propagators.listeners import LightListener
@@ -235,6 +280,7 @@ def main(inp, outp):
                             laws["cone"]["examples"].append({"scenario": sc["name"], "t_s": k * sc["duration"] / 60.0, "type": typ, "margin_m": margin,
                                                              "listener": float(ref)})
     with open(outp, "w") as fh:
+        laws["kepler"] = kep_law
         json.dump({"traces": traces, "notes": notes, "laws": laws}, fh)
 
 
